@@ -156,6 +156,13 @@ func (p *Pair) Emit(traces []Trace) (mod, cfg string) {
 		fmt.Fprintf(&b, "T%d_0 == %s\n", ti+1, stateRec(vars, t.Init, "-", "0"))
 		prev := t.Init
 		for si, st := range t.Steps {
+			if (si+1)%40 == 0 {
+				// a full record now and then keeps the chain of definitions short: TLC's level analysis walks the
+				// whole chain for every definition and does not finish on chains of a thousand
+				fmt.Fprintf(&b, "T%d_%d == %s\n", ti+1, si+1, stateRec(vars, st.Post, st.Lbl, st.Who))
+				prev = st.Post
+				continue
+			}
 			ch := []string{fmt.Sprintf("!.lbl = %q", st.Lbl), "!.who = " + st.Who}
 			for _, v := range vars {
 				if st.Post[v] != prev[v] {
